@@ -1,0 +1,199 @@
+//go:build verif
+
+// Contracts for the deductive verifier in /verif (govc). Only compiled with -tags verif.
+//
+// C30: registry views enforce access. What is machine-checked here is the per-call access
+// filter: which view rules a request is matched against, that only rules allowing the access
+// (read / write) contribute to the match list, and that the databag is only called with paths
+// taken from that list (and never when the list is empty). The text of the storage path
+// (strings.Builder), the split of the request (strings.Split), the order of the match list
+// (sort.Slice) and the JSON databag itself have no model in the verifier.
+
+package registry
+
+// ---- request matchers: one sub-key of a rule's request pattern --------------------------
+
+// a literal matches the equal sub-key, a placeholder matches every sub-key
+//@ define matcherOK(m requestMatcher, subkey string) = m == iface(literal(subkey)) || tag(m) == tag(iface(placeholder("")))
+
+// The interface contract (used where viewRule.match calls p.request[i].match): verdict, and the
+// only map entry written is the one of the placeholder's own name, set to the sub-key. Both
+// implementations in the package (literal, placeholder) are verified against the same clauses.
+//@ func (registry.requestMatcher).match
+//@   trusted
+//@   assigns Md:Str:Str Mv:Str:Str Mc:Str:Str
+//@   ensures result == matcherOK(recv, subkey)
+//@   ensures forall k string :: has(placeholders, k) == (old(has(placeholders, k)) || recv == iface(placeholder(k)))
+//@   ensures forall k string :: has(placeholders, k) ==> placeholders[k] == ite(recv == iface(placeholder(k)), subkey, old(placeholders[k]))
+
+//@ func (registry.requestMatcher).String
+//@   trusted
+//@   assigns nothing
+
+//@ func (literal).match
+//@   props C30
+//@   ensures result == matcherOK(iface(p), subkey)
+//@   ensures forall m map[string]string, k string :: has(m, k) == old(has(m, k)) && m[k] == old(m[k])
+//@   ensures forall k string :: iface(p) != iface(placeholder(k))
+
+//@ func (placeholder).match
+//@   props C30
+//@   ensures result == matcherOK(iface(p), subkey)
+//@   ensures forall k string :: has(placeholders, k) == (old(has(placeholders, k)) || iface(p) == iface(placeholder(k)))
+//@   ensures forall k string :: has(placeholders, k) ==> placeholders[k] == ite(iface(p) == iface(placeholder(k)), subkey, old(placeholders[k]))
+
+// storage writers only append to the strings.Builder they are given
+//@ func (registry.storageWriter).write
+//@   trusted
+//@   assigns strings.Builder.buf strings.Builder.addr
+
+// ---- access sets ---------------------------------------------------------------------------
+
+// the textual access names, in the order of the accessType constants (readWrite, read, write)
+//@ const [C30] accessTypeStrings: []string{"read-write", "read", "write"}
+
+// the access type is the index of the given name in accessTypeStrings ("" stands for
+// "read-write"); any other name is rejected
+//@ func newAccessType
+//@   props C30
+//@   ensures [index] result1 == nil ==> 0 <= result0 && result0 < len(accessTypeStrings) && accessTypeStrings[result0] == ite(access == "", "read-write", access)
+//@   ensures [reject] result1 != nil ==> forall k int :: 0 <= k && k < len(accessTypeStrings) ==> accessTypeStrings[k] != ite(access == "", "read-write", access)
+//@   loop 0: invariant -1 <= idx0 && idx0 < len(accessTypeStrings)
+//@   loop 0: invariant forall k int :: 0 <= k && k <= idx0 ==> accessTypeStrings[k] != access
+//@   loop 0: invariant access == ite(old(access) == "", "read-write", old(access))
+
+//@ define writeable(p *viewRule) = p.access == readWrite || p.access == write
+//@ define readable(p *viewRule) = p.access == readWrite || p.access == read
+
+//@ func (viewRule).isReadable
+//@   props C30
+//@   ensures result == (p.access == readWrite || p.access == read)
+
+//@ func (viewRule).isWriteable
+//@   props C30
+//@   ensures result == (p.access == readWrite || p.access == write)
+
+// ---- one rule against the request sub-keys ---------------------------------------------------
+
+// the request is not longer than the rule's pattern and every sub-key is accepted by the
+// matcher at its position (prefix match)
+//@ define ruleMatches(p *viewRule, subkeys []string) = len(p.request) >= len(subkeys) && forall i int :: 0 <= i && i < len(subkeys) ==> matcherOK(p.request[i], subkeys[i])
+
+//@ func (*viewRule).match
+//@   props C30
+//@   ensures match == old(ruleMatches(p, reqSubkeys))
+//@   ensures !match ==> placeholders == nil && restSuffix == nil
+//@   ensures match ==> placeholders != nil && len(restSuffix) == len(p.request) - len(reqSubkeys)
+//@   ensures [filled] match ==> forall k string :: has(placeholders, k) ==> exists i int :: 0 <= i && i < len(reqSubkeys) && p.request[i] == iface(placeholder(k)) && placeholders[k] == old(reqSubkeys[i])
+//@   ensures [frame] forall i int :: 0 <= i && i < len(reqSubkeys) ==> reqSubkeys[i] == old(reqSubkeys[i])
+//@   loop 0: invariant -1 <= idx0 && idx0 < len(reqSubkeys) && len(p.request) >= len(reqSubkeys)
+//@   loop 0: invariant forall j int :: 0 <= j && j <= idx0 ==> matcherOK(p.request[j], reqSubkeys[j])
+//@   loop 0: invariant forall k string :: has(placeholders, k) ==> exists i int :: 0 <= i && i <= idx0 && p.request[i] == iface(placeholder(k)) && placeholders[k] == reqSubkeys[i]
+//@   loop 1: invariant -1 <= idx1 && idx1 < len(ranged1) && len(restSuffix) == idx1 + 1 && len(ranged1) == len(p.request) - len(reqSubkeys) && placeholders != nil
+//@   loop 1: invariant arrayOf(restSuffix) == nil || arrayOf(restSuffix) != arrayOf(reqSubkeys)
+//@   loop 1: invariant forall i int :: 0 <= i && i < len(reqSubkeys) ==> reqSubkeys[i] == old(reqSubkeys[i])
+//@   loop 1: invariant forall k string :: has(placeholders, k) ==> exists i int :: 0 <= i && i < len(reqSubkeys) && p.request[i] == iface(placeholder(k)) && placeholders[k] == old(reqSubkeys[i])
+
+// ---- the match lists ------------------------------------------------------------------------
+// final(subkeys) is the value of the local `subkeys` (strings.Split(request, ".")) at the return.
+
+// write requests: every element of the list stems from a rule that matches the request and is
+// writeable (and carries that rule's request), and no such rule is left out
+//@ func (*View).matchWriteRequest
+//@   props C30
+//@   ensures result1 != nil ==> len(result0) == 0
+//@   ensures [filter] forall k int :: 0 <= k && k < len(result0) ==> exists j int :: 0 <= j && j < len(v.rules) && ruleMatches(v.rules[j], final(subkeys)) && writeable(v.rules[j]) && result0[k].request == v.rules[j].originalRequest
+//@   ensures [complete] result1 == nil ==> forall j int :: 0 <= j && j < len(v.rules) && ruleMatches(v.rules[j], final(subkeys)) && writeable(v.rules[j]) ==> exists k int :: 0 <= k && k < len(result0) && result0[k].request == v.rules[j].originalRequest
+//@   loop 0: invariant -1 <= idx0 && idx0 < len(v.rules)
+//@   loop 0: invariant forall k int :: 0 <= k && k < len(matches) ==> exists j int :: 0 <= j && j <= idx0 && ruleMatches(v.rules[j], subkeys) && writeable(v.rules[j]) && matches[k].request == v.rules[j].originalRequest
+//@   loop 0: invariant forall j int :: 0 <= j && j <= idx0 && ruleMatches(v.rules[j], subkeys) && writeable(v.rules[j]) ==> exists k int :: 0 <= k && k < len(matches) && matches[k].request == v.rules[j].originalRequest
+
+// read requests: the same filter with `readable`, as an invariant of the collecting loop (the
+// list is then handed to sort.Slice, which the verifier treats as writing everything, so the
+// filter cannot be restated as a postcondition); an error comes with an empty list, and a view
+// without any readable rule always yields an error
+//@ func (*View).matchGetRequest
+//@   props C30
+//@   ensures err != nil ==> len(matches) == 0
+//@   ensures old(forall j int :: 0 <= j && j < len(v.rules) ==> !readable(v.rules[j])) ==> err != nil
+//@   loop 0: invariant -1 <= idx0 && idx0 < len(v.rules)
+//@   loop 0: invariant forall k int :: 0 <= k && k < len(matches) ==> exists j int :: 0 <= j && j <= idx0 && ruleMatches(v.rules[j], subkeys) && readable(v.rules[j]) && matches[k].request == v.rules[j].originalRequest
+
+// ---- the databag and the schema (interfaces: assumed, T5) ---------------------------------------
+
+// abstract content of a databag: the only thing a databag write (or the write-back callback of
+// a transaction) may change, i.e. they do not touch views, rules or match lists
+//@ ghost bagContent(iface, str) iface
+
+//@ func (registry.DataBag).Unset
+//@   trusted
+//@   assigns bagContent
+
+//@ func (registry.DataBag).Get
+//@   trusted
+//@   assigns nothing
+
+//@ func (registry.DataBag).Data
+//@   trusted
+//@   assigns nothing
+
+// verdict of a schema on serialised data
+//@ ghost schemaOK(iface, slice) bool
+
+//@ func (registry.Schema).Validate
+//@   trusted
+//@   assigns nothing
+//@   ensures (result == nil) == schemaOK(recv, data)
+
+// ---- access through a view ---------------------------------------------------------------------
+
+// Unset: the databag is only called with the storage path of an element of the (non-empty)
+// write match list, and that element stems from a writeable rule; a view without any writeable
+// rule rejects every unset (and, by the guard, before any databag call)
+//@ func (*View).Unset
+//@   props C30
+//@   guard call (registry.DataBag).Unset: 0 <= idx0 && idx0 < len(matches) && arg0 == matches[idx0].storagePath
+//@   guard call (registry.DataBag).Unset: exists j int :: 0 <= j && j < len(v.rules) && writeable(v.rules[j]) && matches[idx0].request == v.rules[j].originalRequest
+//@   ensures old(forall j int :: 0 <= j && j < len(v.rules) ==> !writeable(v.rules[j])) ==> result != nil
+//@   loop 0: invariant -1 <= idx0 && idx0 < len(matches)
+//@   loop 0: invariant forall k int :: 0 <= k && k < len(matches) ==> exists j int :: 0 <= j && j < len(v.rules) && writeable(v.rules[j]) && matches[k].request == v.rules[j].originalRequest
+
+// Get: the databag is only read at the storage path of an element of the (non-empty) read match
+// list; a view without any readable rule rejects every get
+//@ func (*View).Get
+//@   props C30
+//@   guard call (registry.DataBag).Get: 0 <= idx0 && idx0 < len(matches) && arg0 == matches[idx0].storagePath
+//@   ensures old(forall j int :: 0 <= j && j < len(v.rules) ==> !readable(v.rules[j])) ==> result1 != nil
+//@   loop 0: invariant -1 <= idx0 && idx0 < len(matches)
+
+// ---- transactions --------------------------------------------------------------------------------
+
+//@ func (registry.DatabagRead)
+//@   trusted
+//@   assigns nothing
+
+//@ func (registry.DatabagWrite)
+//@   trusted
+//@   assigns bagContent
+
+// writes are only recorded: appended after the earlier ones (which keep their order), the
+// committed bag is not touched
+//@ func (*Transaction).Set
+//@   props C30
+//@   ensures result == nil && len(t.deltas) == old(len(t.deltas)) + 1
+//@   ensures forall i int :: 0 <= i && i < old(len(t.deltas)) ==> t.deltas[i] == old(t.deltas[i])
+//@   ensures has(t.deltas[old(len(t.deltas))], path) && t.deltas[old(len(t.deltas))][path] == value
+//@   ensures t.pristine == old(t.pristine)
+
+//@ func (*Transaction).Unset
+//@   props C30
+//@   ensures result == nil && len(t.deltas) == old(len(t.deltas)) + 1
+//@   ensures forall i int :: 0 <= i && i < old(len(t.deltas)) ==> t.deltas[i] == old(t.deltas[i])
+//@   ensures has(t.deltas[old(len(t.deltas))], path) && t.deltas[old(len(t.deltas))][path] == nil
+//@   ensures t.pristine == old(t.pristine)
+
+// the write-back callback only runs on data the registry's schema accepted
+//@ func (*Transaction).Commit
+//@   props C30
+//@   guard call (registry.DatabagWrite): schemaOK(t.registry.Schema, data)
+//@   ensures result == nil ==> len(t.deltas) == 0
